@@ -187,7 +187,7 @@ def rule_lists(ctx: Ctx):
                   te.key, f"return {show(p.value)}")
 
 
-def rule_bind(ctx: Ctx):
+def rule_bind(ctx: Ctx, rule: str = "C13.bind"):
     rep = ctx.rep
     g = ctx.fn("Event.__get__")
     inst = g.params[1]
@@ -199,15 +199,15 @@ def rule_bind(ctx: Ctx):
         facts = {show(b.term): b.x["taken"] for b in p.of("branch")}
         v = expand(p.value, p.events)
         if facts.get(f"{inst} is None") is True:
-            rep.check(show(v) == "self", "C13.bind", g.loc(), "on the class, the Event itself is returned", g.key, f"return {show(v)}")
+            rep.check(show(v) == "self", rule, g.loc(), "on the class, the Event itself is returned", g.key, f"return {show(v)}")
         else:
             ok = isinstance(v, ast.Call) and show(v.func) == "BoundEvent"
             kw = {k.arg: show(k.value) for k in v.keywords} if ok else {}
             ok = ok and kw.get("id") == "self.id" and kw.get("name") == "self.name" and kw.get("_sm") == inst
-            rep.check(bool(ok), "C13.bind", g.loc(), "on an instance, a BoundEvent with the same id and name, tied to that instance", g.key, f"return {show(v)}")
-    rep.floor("C13.bind", "paths of Event.__get__", n, 2)
+            rep.check(bool(ok), rule, g.loc(), "on an instance, a BoundEvent with the same id and name, tied to that instance", g.key, f"return {show(v)}")
+    rep.floor(rule, "paths of Event.__get__", n, 2)
     be = ctx.p.cls("BoundEvent")
-    rep.check("Event" in be.bases and not be.methods, "C13.bind", f"{be.module.rel}:{be.node.lineno} BoundEvent",
+    rep.check("Event" in be.bases and not be.methods, rule, f"{be.module.rel}:{be.node.lineno} BoundEvent",
               "a BoundEvent is an Event (same __call__)", f"{be.module.rel}::BoundEvent", f"class BoundEvent({', '.join(be.bases)}) with methods {sorted(be.methods)}")
     b = ctx.fn("StateMachine.bind_events_to")
     n = 0
@@ -224,9 +224,9 @@ def rule_bind(ctx: Ctx):
                         show(e.term.args[0]) == show(its[1].x["elem"])
                     guard = [x for x in evs[: e.idx] if x.kind == "branch" and xshow(x.term, evs).startswith("hasattr(") and x.x["taken"] is False]
                     ok = ok and bool(guard)
-                rep.check(bool(ok), "C13.bind", e.loc(), "only declared events are bound onto a target, under their own name, and never over an existing attribute",
+                rep.check(bool(ok), rule, e.loc(), "only declared events are bound onto a target, under their own name, and never over an existing attribute",
                           b.key, norm_stmt(e.node))
-    rep.floor("C13.bind", "binding sites in bind_events_to", n, 1)
+    rep.floor(rule, "binding sites in bind_events_to", n, 1)
 
 
 RULES = [rule_send, rule_match, rule_single, rule_lists, rule_bind]
